@@ -302,7 +302,30 @@ def unqualify(a: str | None) -> str | None:
     return None if a is None else re.sub(r"\b(?:[A-Za-z_]\w*\.)+([A-Za-z_]\w*)", r"\1", a)
 
 
+def pep484(params: list) -> list:
+    """PEP 484: a positional parameter named `__x` is positional-only when every parameter before it is
+    (what mypy's parser — and stubtest — read into the source signature)."""
+    out, prefix = [], True
+    for p in params:
+        n, k = p[0], p[1]
+        if prefix and k == "posonly":
+            out.append(p)
+        elif prefix and k == "pos" and n.startswith("__") and not n.endswith("__"):
+            out.append((n, "posonly") + tuple(p[2:]))
+        else:
+            prefix = False
+            out.append(p)
+    return out
+
+
 def sig_matches(want: dict, have: dict, loose: bool = False) -> bool:
+    if _sig_matches(want, have, loose):
+        return True
+    conv = dict(want, params=pep484(want["params"]))
+    return conv["params"] != want["params"] and _sig_matches(conv, have, loose)
+
+
+def _sig_matches(want: dict, have: dict, loose: bool = False) -> bool:
     if loose:
         q = lambda d: {"params": [(n, k, dd, unqualify(a)) for n, k, dd, a in d["params"]], "ret": unqualify(d["ret"]),
                        "async": d["async"]}
